@@ -129,8 +129,11 @@ class UMNDirHandler(DirHandler):
                 continue
             if linkentry.selector in fileentriesdict:
                 if linkentry.gettype() == "X":
-                    # It's special code to hide something.
-                    self.fileentries.remove(fileentriesdict[linkentry.selector])
+                    # It's special code to hide something.  A second block
+                    # hiding the same file finds nothing left to hide.
+                    hidden = fileentriesdict[linkentry.selector]
+                    if hidden in self.fileentries:
+                        self.fileentries.remove(hidden)
                 else:
                     self.mergeentries(fileentriesdict[linkentry.selector], linkentry)
             else:
